@@ -40,6 +40,8 @@ func (o tgOp) coq() string {
 		return "PFire"
 	case "resume":
 		return "PResume"
+	case "giveup":
+		return "PGiveUp"
 	}
 	return "PSettle"
 }
@@ -137,6 +139,8 @@ func runTriggerSeq(ops []tgOp, base time.Duration) (got [][2]uint64, expected []
 				}
 				time.Sleep(2 * time.Millisecond)
 			}
+		case "giveup": // time passes and the reader stays away (shutdown: the main loop is gone)
+			time.Sleep(5 * time.Millisecond)
 		case "settle":
 			if pending {
 				expected = append(expected, [2]uint64{ph, pv})
@@ -149,20 +153,31 @@ func runTriggerSeq(ops []tgOp, base time.Duration) (got [][2]uint64, expected []
 			time.Sleep(2*maxTimeout + 5*time.Millisecond) // anything else that was (wrongly) left armed fires now
 		}
 	}
+	countParked := func() int {
+		k := 0
+		for t := 0; t < 100; t++ {
+			var b bytes.Buffer
+			pprof.Lookup("goroutine").WriteTo(&b, 1)
+			k = strings.Count(b.String(), "electiontrigger.triggerElections")
+			if k == 0 {
+				break
+			}
+			time.Sleep(2 * time.Millisecond)
+		}
+		return k
+	}
+	if atomic.LoadInt32(&run.paused) == 1 {
+		// the sequence ended with the reader away (Stop, then time passing): what is parked now stays parked for ever
+		parked = countParked()
+	}
 	tr.Stop()
 	atomic.StoreInt32(&run.paused, 0)
 	time.Sleep(3 * time.Millisecond)
 	close(stopReader)
 	<-run.done
 	// goroutines of the trigger that are still around (parked in triggerElections)
-	for t := 0; t < 100; t++ {
-		var b bytes.Buffer
-		pprof.Lookup("goroutine").WriteTo(&b, 1)
-		parked = strings.Count(b.String(), "Electiontrigger.triggerElections")
-		if parked == 0 {
-			break
-		}
-		time.Sleep(2 * time.Millisecond)
+	if k := countParked(); k > parked {
+		parked = k
 	}
 	return run.got, expected, parked, tight
 }
@@ -212,7 +227,12 @@ func runTrigger(cfg *runCfg) error {
 				ops = append(ops, tgOp{"settle", 0, 0})
 			}
 		}
-		ops = append(ops, tgOp{"settle", 0, 0})
+		if r.Intn(4) == 0 { // shutdown ending: the timer fires while nobody reads, Stop, and the reader never comes back
+			p := pairs[r.Intn(len(pairs))]
+			ops = append(ops, tgOp{"settle", 0, 0}, tgOp{"reg", p[0], p[1]}, tgOp{"fire", 0, 0}, tgOp{"stop", 0, 0}, tgOp{"giveup", 0, 0})
+		} else {
+			ops = append(ops, tgOp{"settle", 0, 0})
+		}
 		var got, exp [][2]uint64
 		var parked int
 		for attempt := 0; ; attempt++ {
@@ -263,7 +283,7 @@ func runTrigger(cfg *runCfg) error {
 	}
 	rep.Evaluations = len(cases)
 	rep.DistinctNontr = len(cases)
-	rep.Rule = "random sequences of 4-10 public operations (RegisterOnElection over four pairs with deliberate repeats of the last pair, Stop, settle) on a fresh real TimerBasedElectionTrigger with a 4 ms base timeout and a channel reader; settle = wait for the expected trigger (up to 2 s) and then two maximal timeouts more; observable = pairs read from the channel in order"
+	rep.Rule = "random sequences of 4-10 public operations (RegisterOnElection over four pairs with deliberate repeats of the last pair, Stop, settle, time passing with the reader away, the reader coming back; one sequence in four ends the way a shutdown does: expiry with the reader away, Stop, reader never back) on a fresh real TimerBasedElectionTrigger with a 20 ms base timeout and a channel reader; settle = wait for the expected trigger (up to 2 s) and then two maximal timeouts more; observable = pairs read from the channel in order"
 	cf := newCaseFile("From LH Require Import Prims Timer Corr.\nOpen Scope N_scope.")
 	cf.addShards("tg", "tgcase", "tg_ok", cases, 200)
 	p := filepath.Join(cfg.outDir, "cases_trigger.v")
